@@ -896,7 +896,6 @@ func confirm(cands []candidate) {
 			round = append(round, c)
 		}
 		todo = rest
-		h := generatecmd.NewFSEventHandler(quiet, bt.Dir, true, nil, false, true, func(string, []byte) error { return nil }, false)
 		var devJobs []rt.Job
 		// the running program: first it renders with the text of the version it was compiled from, then the text
 		// file changes under it (the edit), then it renders again. idx[i] = position of the second render.
@@ -909,7 +908,10 @@ func confirm(cands []candidate) {
 			textOf := func(p params) string {
 				// the handler sees the version under the file name of the compiled one and writes its text file
 				writeAt(oldPath, srcOf(p, fmt.Sprintf("V%d", k)))
+				// a handler of its own, with no memory of earlier versions: it writes the text file whenever it writes
+				// one at all (a handler that has seen the same text before leaves the file alone)
 				os.Remove(txtPath)
+				h := generatecmd.NewFSEventHandler(quiet, bt.Dir, true, nil, false, true, func(string, []byte) error { return nil }, false)
 				if _, err := h.HandleEvent(context.Background(), fsnotify.Event{Name: oldPath, Op: fsnotify.Write}); err != nil {
 					vlib.Fatal("confirm handler: %v", err)
 				}
